@@ -893,11 +893,11 @@ func (p *Parser) parsePrimaryExpression() (ast.Expression, error) {
 			p.advance() // Consume )
 
 			// Return NOT EXISTS as a BinaryExpression with NOT flag
-			return &ast.BinaryExpression{
-				Left:     &ast.ExistsExpression{Subquery: subquery},
-				Operator: "NOT",
-				Right:    nil,
-				Not:      true,
+			// NOT EXISTS (...) is the negation of an EXISTS expression, like any other
+			// NOT x (a BinaryExpression without a right operand cannot be serialised).
+			return &ast.UnaryExpression{
+				Operator: ast.Not,
+				Expr:     &ast.ExistsExpression{Subquery: subquery},
 			}, nil
 		}
 
